@@ -690,4 +690,293 @@ theorem reach_run {M mc nk : Nat} {progs : List (List Round)} (acts : List Act) 
     · rename_i s1 hs; exact ih (Reach.step a hr hs) h
     · cases h
 
+/-! ## the configured limit is constant -/
+
+theorem hostAcquire_M (s s' : St) (t k : Nat) (g : Option Nat) (h : hostAcquire s t k g = some s') : s'.M = s.M := by
+  unfold hostAcquire at h
+  repeat' split at h
+  all_goals first | cases h | skip
+  all_goals simp [grantReady, grantFresh, waitOn, setHost]
+
+theorem releaseOp_M (s : St) (k n : Nat) : (releaseOp s k n).M = s.M := by
+  simp only [releaseOp, cleanAll, hostRelease, setHost]; split <;> rfl
+
+theorem beginRound_M (s s' : St) (t : Nat) (pops : List Nat) (g : Option Nat)
+    (h : beginRound s t pops g = some s') : s'.M = s.M := by
+  unfold beginRound at h
+  split at h
+  · split at h
+    · cases h; rfl
+    · cases h
+  · split at h
+    · cases h
+    · rename_i s1 r hd
+      obtain ⟨p, hp⟩ := drainGo_eq _ _ _ _ hd
+      split at h
+      · cases h; subst hp; rfl
+      · cases h
+    · rename_i s1 hd
+      obtain ⟨p, hp⟩ := drainGo_eq _ _ _ _ hd
+      subst hp
+      unfold acquire at h
+      have := hostAcquire_M _ _ _ _ _ h
+      rw [this]; split <;> rfl
+
+theorem endRound_M (s : St) (t k n : Nat) (rd : Round) (rest : List Round) : (endRound s t k n rd rest).M = s.M := by
+  unfold endRound
+  dsimp only
+  split
+  · rw [releaseOp_M]
+  · rfl
+
+theorem deliverCancel_M (s : St) (t : Nat) : (deliverCancel s t).M = s.M := by
+  unfold deliverCancel
+  split
+  · simp only [cancelWait, setHost]; split <;> rfl
+  · rfl
+  · rfl
+
+theorem step_M (s s' : St) (a : Act) (h : step s a = some s') : s'.M = s.M := by
+  unfold step at h
+  dsimp only at h
+  split at h
+  · unfold stepClient at h
+    split at h
+    · cases h
+    · split at h
+      · split at h
+        · cases h; rw [deliverCancel_M]
+        · cases h
+      · split at h
+        · exact (beginRound_M _ _ _ _ _ h).trans rfl
+        · exact (beginRound_M _ _ _ _ _ h).trans rfl
+        · split at h
+          · exact (hostAcquire_M _ _ _ _ _ h).trans rfl
+          · cases h
+        · split at h
+          · cases h
+          · exact ((beginRound_M _ _ _ _ _ h).trans (endRound_M _ _ _ _ _ _)).trans rfl
+        · cases h
+        · cases h
+  · split at h
+    · cases h; rw [releaseOp_M]
+    · cases h
+  · split at h <;> cases h <;> rfl
+  · cases h; rfl
+
+theorem reach_M {M mc nk : Nat} {progs : List (List Round)} {s : St} (h : Reach M mc nk progs s) : s.M = M := by
+  induction h with
+  | init => rfl
+  | step a _ hs ih => rw [step_M _ _ a hs, ih]
+
+/-! ## Property theorems (C12)
+
+All for every configuration (`N` client programs of any length over any host keys, any limit
+`M ≥ 1`, any `max_count`) and every schedule of task steps, cancellations and remote closes. -/
+
+section property
+variable {M mc nk : Nat} {progs : List (List Round)} {s : St}
+
+/-- **exclusive** — "a connection is held by at most one client at a time": two clients never
+hold the same connection of the same host. -/
+theorem exclusive (hM : 0 < M) (hr : Reach M mc nk progs s) {t t' k n : Nat}
+    (h : s.pc t = .holding k n) (h' : s.pc t' = .holding k n) : t = t' :=
+  (inv_reach hM hr).hold_inj t t' k n h h'
+
+/-- **bounded** — "no more than the configured number of connections per host are ever checked
+out". Even pooled + checked out stays within the limit: the commented-out assert of `ConnectionPool.acquire` is always true. -/
+theorem bounded (hM : 0 < M) (hr : Reach M mc nk progs s) (k : Nat) :
+    (s.host k).busy.length ≤ M ∧ (s.host k).ready.length + (s.host k).busy.length ≤ M := by
+  have := (inv_reach hM hr).count_le k
+  rw [reach_M hr] at this
+  exact ⟨by omega, this⟩
+
+/-- a client's connection is checked out (in `busy`) and no deferred release is pending for it -/
+theorem held_is_busy (hM : 0 < M) (hr : Reach M mc nk progs s) {t k n : Nat} (h : s.pc t = .holding k n) :
+    n ∈ (s.host k).busy ∧ n ∉ (s.host k).ready ∧ ∀ r, s.relDone r = false → s.relConn r ≠ (k, n) := by
+  have hi := inv_reach hM hr
+  refine ⟨hi.hold_busy t k n h, ?_, fun r hr' => hi.hold_rel t k n r h hr'⟩
+  intro hrdy
+  exact hi.disjoint k n hrdy (hi.hold_busy t k n h)
+
+/-- **wakeup_pending** — "a waiting client obtains a connection as soon as one is free", state by
+state: whenever a (not cancelled) client waits on host `k` while a slot of `k` is free, a woken
+waiter of `k` is ready to run. -/
+theorem wakeup_pending (hM : 0 < M) (hr : Reach M mc nk progs s) {t k : Nat}
+    (hw : (t, false) ∈ (s.host k).cond) (hc : s.creq t = false) (hfree : (s.host k).busy.length < M) :
+    ∃ u, (u, true) ∈ (s.host k).cond ∧ clientEnabled s u = true := by
+  rw [← reach_M hr] at hfree
+  have hi := inv_reach hM hr
+  have := hi.notif k ⟨t, hw, hc⟩
+  simp only [reduceCtorEq, if_false, Nat.add_zero] at this
+  have hpos : 0 < (s.host k).cond.countP (·.2) := by omega
+  obtain ⟨e, he, hb⟩ := List.countP_pos_iff.mp hpos
+  obtain ⟨u, b⟩ := e
+  simp only at hb
+  subst hb
+  refine ⟨u, he, ?_⟩
+  have := hi.cond_pc k u true he
+  simp [clientEnabled, this, he]
+
+/-- **no_lost_wakeup** — when the event loop has gone dry, a client that still waits for host `k`
+waits because all `M` connections of `k` are checked out (and none is idle). -/
+theorem no_lost_wakeup (hM : 0 < M) (hr : Reach M mc nk progs s) (hq : quiescent s) {t k : Nat}
+    (h : s.pc t = .cwait k) : (s.host k).busy.length = M ∧ (s.host k).ready = [] := by
+  rw [← reach_M hr]
+  have hi := inv_reach hM hr
+  obtain ⟨b, hb⟩ := hi.pc_cond t k h
+  have hen := hq.1 t
+  simp only [clientEnabled, h, Bool.or_eq_false_iff] at hen
+  have hbf : b = false := by
+    cases b with
+    | false => rfl
+    | true => have := hen.1; simp [hb] at this
+  subst hbf
+  have hfull : ¬ (s.host k).busy.length < s.M := by
+    intro hfree
+    obtain ⟨u, _, hu⟩ := wakeup_pending hM hr hb hen.2 (by rw [← reach_M hr]; exact hfree)
+    rw [hq.1 u] at hu; cases hu
+  have := hi.count_le k
+  refine ⟨by omega, ?_⟩
+  apply List.eq_nil_of_length_eq_zero
+  omega
+
+/-- **no_deadlock** — the loop never goes dry with work left: at quiescence every client has
+finished and every deferred release has run. -/
+theorem no_deadlock (hM : 0 < M) (hr : Reach M mc nk progs s) (hq : quiescent s) : allDone s := by
+  have hi := inv_reach hM hr
+  have hrel : ∀ r, s.relDone r = true := by
+    intro r
+    cases hd : s.relDone r with
+    | true => rfl
+    | false =>
+      have hlt : r < s.nrels := by
+        by_cases h : r < s.nrels
+        · exact h
+        · have := hi.rel_ge r (by omega); rw [hd] at this; cases this
+      have := hq.2 r
+      simp [relEnabled, hlt, hd] at this
+  refine ⟨?_, hrel⟩
+  intro t
+  have hen := hq.1 t
+  unfold clientFinished
+  cases hp : s.pc t with
+  | start => simp [clientEnabled, hp] at hen
+  | holding k n => simp [clientEnabled, hp] at hen
+  | drain r => simp [clientEnabled, hp, hrel r] at hen
+  | done => simp
+  | cancelled => simp
+  | cwait k =>
+    have hfull := (no_lost_wakeup hM hr hq hp).1
+    have hMs : 0 < M := hM
+    have hne : (s.host k).busy ≠ [] := by
+      intro h; rw [h] at hfull; simp at hfull; omega
+    obtain ⟨n, hn⟩ := List.exists_mem_of_ne_nil _ hne
+    rcases hi.busy_owned k n hn with ⟨u, hu⟩ | ⟨r, hr1, _⟩ | ho
+    · have := hq.1 u; simp [clientEnabled, hu] at this
+    · rw [hrel r] at hr1; cases hr1
+    · cases ho
+
+/-- **clean_quiescence** — "once all clients have finished nothing remains checked out and per-host
+bookkeeping for idle hosts is dropped": no busy connection, every waiter count 0, every host pool
+still kept has a pooled connection; and no `KeyError` was ever raised on the way. -/
+theorem clean_quiescence (hM : 0 < M) (hr : Reach M mc nk progs s) (hd : allDone s) :
+    (∀ k, (s.host k).busy = []) ∧ (∀ k, (s.host k).waiters = 0) ∧ (∀ k, (s.host k).cond = []) ∧
+    (∀ k, k ∈ s.present → (s.host k).ready ≠ []) ∧ s.err = false := by
+  have hi := inv_reach hM hr
+  have hbusy : ∀ k, (s.host k).busy = [] := by
+    intro k
+    apply List.eq_nil_iff_forall_not_mem.mpr
+    intro n hn
+    rcases hi.busy_owned k n hn with ⟨u, hu⟩ | ⟨r, hr1, _⟩ | ho
+    · rcases hd.1 u with h | h <;> rw [hu] at h <;> cases h
+    · rw [hd.2 r] at hr1; cases hr1
+    · cases ho
+  have hcond : ∀ k, (s.host k).cond = [] := by
+    intro k
+    apply List.eq_nil_iff_forall_not_mem.mpr
+    rintro ⟨u, b⟩ hm
+    have := hi.cond_pc k u b hm
+    rcases hd.1 u with h | h <;> rw [this] at h <;> cases h
+  have hw : ∀ k, (s.host k).waiters = 0 := by
+    intro k; have := hi.waiters_eq k; simp [hcond k] at this; exact this
+  refine ⟨hbusy, hw, hcond, ?_, hi.noerr⟩
+  intro k hk
+  rcases hi.kept k hk with h | h | h
+  · exact h
+  · exact absurd (hbusy k) h
+  · rw [hw k] at h; cases h
+
+/-- no `KeyError`: `busy.remove(connection)` and `_host_pools[key]` never miss. -/
+theorem no_error (hM : 0 < M) (hr : Reach M mc nk progs s) : s.err = false := (inv_reach hM hr).noerr
+
+end property
+
+/-! ## non-vacuity: the hypotheses of the theorems are met by concrete runs -/
+
+/-- two clients, one host, limit 1 -/
+def demoProgs : List (List Round) := [[⟨0, false, false⟩], [⟨0, false, false⟩], [⟨0, false, false⟩]]
+
+/-- client 0 holds connection (0,0); clients 1 and 2 wait on the condition -/
+def demoWait : Option St := run (init 1 100 1 demoProgs) [.client 0 [] (some 0), .client 1 [] none, .client 2 [] none]
+
+/-- ... client 0 leaves, its release task wakes client 1, client 1 is cancelled after it was woken:
+the wake-up is passed on to client 2, which gets the connection; everything finishes. -/
+def demoCancel : Option St := run (init 1 100 1 demoProgs)
+  [.client 0 [] (some 0), .client 1 [] none, .client 2 [] none, .client 0 [] none, .rel 0,
+   .cancel 1, .client 1 [] none, .client 2 [] (some 0), .client 2 [] none, .rel 1]
+
+-- exclusive / bounded / held_is_busy: a state with a holder and a full host
+example : (demoWait.map fun s => (s.pc 0, (s.host 0).busy, (s.host 0).cond)) =
+    some (.holding 0 0, [0], [(1, false), (2, false)]) := by decide
+-- wakeup_pending: after the release a slot is free, client 2 still waits unnotified, client 1 is woken
+example : ((run (init 1 100 1 demoProgs) [.client 0 [] (some 0), .client 1 [] none, .client 2 [] none,
+    .client 0 [] none, .rel 0]).map fun s => ((s.host 0).busy, (s.host 0).cond, clientEnabled s 1)) =
+    some ([], [(1, true), (2, false)], true) := by decide
+-- cancellation of the woken waiter passes the wake-up on
+example : ((run (init 1 100 1 demoProgs) [.client 0 [] (some 0), .client 1 [] none, .client 2 [] none,
+    .client 0 [] none, .rel 0, .cancel 1, .client 1 [] none]).map fun s => ((s.host 0).cond, (s.host 0).waiters, s.pc 1)) =
+    some ([(2, true)], 1, .cancelled) := by decide
+-- no_deadlock / clean_quiescence: the run ends with all clients finished, nothing busy, a live pooled connection kept
+example : (demoCancel.map fun s => (s.pc 0, s.pc 1, s.pc 2, s.relDone 0, s.relDone 1)) =
+    some (.done, .cancelled, .done, true, true) := by decide
+example : (demoCancel.map fun s => ((s.host 0).busy, (s.host 0).ready, (s.host 0).waiters, s.present, s.err)) =
+    some ([], [0], 0, [0], false) := by decide
+-- an idle host is dropped: the only connection was closed, the last release cleans the host pool away
+example : ((run (init 1 100 1 [[⟨0, true, false⟩]]) [.client 0 [] (some 0), .client 0 [] none, .rel 0]).map
+    fun s => (s.present, (s.host 0).ready, s.pc 0)) = some ([], [], .done) := by decide
+-- the waiting state is reachable (hypothesis of no_lost_wakeup), with the host full
+example : ∃ s, Reach 1 100 1 demoProgs s ∧ s.pc 1 = .cwait 0 ∧ (s.host 0).busy.length = 1 := by
+  have h : ∃ s, demoWait = some s := by
+    unfold demoWait; exact Option.isSome_iff_exists.mp (by decide)
+  obtain ⟨s, hs⟩ := h
+  refine ⟨s, reach_run _ Reach.init hs, ?_, ?_⟩
+  · have : (demoWait.map fun s => s.pc 1) = some (.cwait 0) := by decide
+    rw [hs] at this; simpa using this
+  · have : (demoWait.map fun s => (s.host 0).busy.length) = some 1 := by decide
+    rw [hs] at this; simpa using this
+
+/-! ## the defect that was repaired (DESIGN.md section 7, row 10)
+
+Before the `fix:` commits a `CancelledError` inside `Condition.wait` left `HostPool.acquire`
+without releasing the re-acquired lock, without passing a consumed wake-up on and without undoing
+`_host_pool_waiters`.  The lock-free part of that behaviour is `cancelWaitOld`; already it breaks
+`wakeup_pending` / `no_lost_wakeup` and the waiter accounting (the held lock, which the model does
+not represent, made it a hard deadlock on the real code: corpus `cancelled_cond_waiter.json`). -/
+
+def cancelWaitOld (s : St) (t k : Nat) : St :=
+  { setHost s k { s.host k with cond := dropTask t (s.host k).cond } with pc := upd s.pc t .cancelled }
+
+def demoBeforeCancel : Option St := run (init 1 100 1 demoProgs)
+  [.client 0 [] (some 0), .client 1 [] none, .client 2 [] none, .client 0 [] none, .rel 0, .cancel 1]
+
+/-- client 1 (woken, then cancelled) leaves the old way: client 2 keeps waiting un-notified although
+the slot is free and nothing else can run, and the waiter count stays 2 with one waiter left. -/
+theorem cancel_counterexample_unrepaired :
+    (demoBeforeCancel.map fun s =>
+      let s' := cancelWaitOld s 1 0
+      ((s'.host 0).cond, (s'.host 0).busy, (s'.host 0).waiters,
+       (List.range 3).map (clientEnabled s'), (List.range 2).map (relEnabled s'))) =
+    some ([(2, false)], [], 2, [false, false, false], [false, false]) := by decide
+
 end Wpull.Pool
